@@ -85,13 +85,13 @@ pub fn props() -> Vec<PropCfg> {
         },
         PropCfg {
             id: "C04",
-            profiles: &[("C04", 1)],
+            profiles: &[("C04", 3), ("C04-encfail", 1)],
             quick_runs: 60000,
             thorough_runs: 1000000,
             level: "exploration",
             rule: "one case = one seeded scenario (pre-existing file, open modes, 1-4 threads x records sized around the 1 KiB buffer, up to 3 restart phases, encoder kind) executed under one seeded schedule; non-trivial = at least two append calls overlapped in time (a thread was switched out between invoke and return of its append while another invoked); distinct = distinct event-log fingerprints (FNV-1a over every decision, invoke/return and fault event)",
             assumptions: &[
-                "crash model: none (C04 quantifies over schedules and restarts only)",
+                "crash model: none (C04 quantifies over schedules and restarts only); profile C04-encfail (1/4 of the cases) additionally makes the harness encoder fail part-way on selected records: fragments of those unacknowledged records are tolerated anywhere, everything else stays strict",
                 "the filesystem is the kernel's tmpfs; reads through a second handle see what write(2) has delivered",
                 "thread interleavings are explored at hook/seam granularity (before the lock, between encoder chunks, between encode and flush, at return), not at instruction granularity",
             ],
@@ -111,12 +111,12 @@ pub fn props() -> Vec<PropCfg> {
         },
         PropCfg {
             id: "C06",
-            profiles: &[("C06", 1)],
+            profiles: &[("C06", 39), ("C06-fault", 1)],
             quick_runs: 40000,
             thorough_runs: 600000,
             level: "exploration",
             rule: "world R restricted to the real SizeTrigger; record lengths are aimed at limit-1/limit/limit+1 of the running file size; at every consultation the size shown to the policy is compared with fs::metadata, and after every append rotation-iff-over-limit is checked against the byte model; non-trivial = at least one rotation completed; distinct = distinct event-log fingerprints",
-            assumptions: &["no fault injected", "size aiming is exact for single-writer phases and approximate under concurrency"],
+            assumptions: &["profile C06 (39/40 of the histories) injects no fault; profile C06-fault (1/40) re-executes its history once per rotation-step site with an error or a crash image there (as C08 does) and keeps judging the size shown to the policy after the failed rotation", "size aiming is exact for single-writer phases and approximate under concurrency"],
             real: R_REAL,
             stub: R_STUB,
         },
